@@ -116,7 +116,7 @@ pub enum TokenType {
     Identifier,
 
     // B.1.2 Constants
-    #[regex(r"16#[0-9A-F][0-9A-F_]*")]
+    #[regex(r"16#[0-9A-F][0-9A-F_]*", ignore(case))]
     HexDigits,
     #[regex(r"8#[0-7][0-7_]*")]
     OctDigits,
@@ -381,11 +381,11 @@ pub enum TokenType {
     Plus,
     #[token("-")]
     Minus,
-    #[token("MOD")]
+    #[token("MOD", ignore(case))]
     Mod,
     #[token("**")]
     Power,
-    #[token("NOT")]
+    #[token("NOT", ignore(case))]
     Not,
 
     #[token(":=")]
